@@ -179,11 +179,13 @@ theorem qsim_deleteMapEntry {P : Qp} {s t : St} (hR : StRq P s t) (hp : ¬ P.pre
     rintro _ r s1 t1 hR1 ⟨rfl, hc⟩
     cases r with
     | none => exact SimQ.pure hR1 ⟨rfl, trivial⟩
-    | some obj =>
-      have hco := hc obj rfl
+    | some obj0 =>
+      simp only [Option.map]
+      refine SimQ.bind (qsim_valueOf hR1 obj0 (hc obj0 rfl)) ?_
+      rintro _ obj s1' t1' hR1 ⟨rfl, _, hco⟩
       cases obj with
       | map big kvs =>
-        simp only [Option.map, ren]
+        simp only [ren]
         rw [mapDelete_ren]
         refine SimQ.bind (Q := fun a b => a = b.map (renP P.σ) ∧ ∀ l, b = some l → cleanP P l)
           (SimQ.liftR' (f := Option.map (renP P.σ)) hR1 rfl
@@ -329,11 +331,11 @@ theorem qsim_extendFunctionEnv {P : Qp} {s t : St} (hR : StRq P s t) (f : FuncVa
   have hk : (renFn P.σ f).key = f.key := rfl
   have hv : (renFn P.σ f).variadic = f.variadic := rfl
   have he : (renFn P.σ f).env = sh P.σ f.env := rfl
-  rw [hk, hv, he, hcfr.cacheKey]
-  have hpar : (if (cft.cacheKey == f.key) = true then sh P.σ t.cur else sh P.σ f.env) =
-      sh P.σ (if (cft.cacheKey == f.key) = true then t.cur else f.env) := by split <;> rfl
+  rw [sameFunction_ren P.σ hcfr.cacheKey hcfr.function f, hk, hv, he]
+  have hpar : (if (sameFunction cft f) = true then sh P.σ t.cur else sh P.σ f.env) =
+      sh P.σ (if (sameFunction cft f) = true then t.cur else f.env) := by split <;> rfl
   rw [hpar]
-  generalize (if (cft.cacheKey == f.key) = true then t.cur else f.env) = parent
+  generalize (if (sameFunction cft f) = true then t.cur else f.env) = parent
   refine qsim_getFrame_bind hR parent ?_
   intro pfs pft hpte _ hpfr
   rw [hpfr.depth]
